@@ -69,7 +69,7 @@ pub fn profile(prop: &str) -> Profile {
     match prop {
         "C04" => Profile {
             prop: "C04",
-            w: [44, 8, 6, 6, 6, 1, 2, 3, 3, 3, 1, 1, 0, 0, 0, 3, 0, 1],
+            w: [44, 8, 6, 6, 6, 1, 2, 3, 3, 3, 1, 1, 0, 0, 0, 3, 2, 1],
             size_w: [8, 30, 32, 20, 10],
             drain_pct: 5,
             ..base
@@ -78,7 +78,7 @@ pub fn profile(prop: &str) -> Profile {
             prop: "C05",
             min_ops: 30,
             max_ops: 90,
-            w: [20, 6, 2, 4, 3, 1, 60, 1, 1, 1, 0, 0, 0, 4, 0, 0, 0, 0],
+            w: [20, 6, 2, 4, 3, 1, 60, 1, 1, 1, 0, 0, 0, 4, 0, 1, 0, 1],
             size_w: [20, 70, 10, 0, 0],
             query_burst: (4, 14),
             blocker_pct: 10,
@@ -86,7 +86,7 @@ pub fn profile(prop: &str) -> Profile {
         },
         "C09" => Profile {
             prop: "C09",
-            w: [14, 40, 14, 8, 5, 1, 5, 1, 1, 1, 2, 0, 0, 0, 0, 4, 0, 0],
+            w: [14, 40, 14, 8, 5, 1, 5, 1, 1, 1, 2, 0, 0, 0, 0, 4, 0, 3],
             kind_w: [10, 35, 40, 3, 2, 10],
             size_w: [30, 65, 5, 0, 0],
             obs_level: 1,
@@ -150,7 +150,7 @@ pub fn profile(prop: &str) -> Profile {
         },
         "C17" => Profile {
             prop: "C17",
-            w: [36, 12, 8, 10, 10, 3, 2, 1, 1, 1, 1, 0, 0, 0, 0, 1, 0, 1],
+            w: [36, 12, 8, 10, 10, 3, 2, 1, 1, 1, 1, 0, 0, 0, 0, 2, 0, 1],
             size_w: [30, 65, 5, 0, 0],
             obs_level: 1,
             drain_pct: 70,
@@ -1047,8 +1047,12 @@ impl Gen {
                 "rebuild" => {
                     if self.rng.chance(1, 5) {
                         // an operator reclaims disk space: one half of rebuild's backup is deleted
-                        ops.push(Op::RemoveBackup(self.rng.below(3) as u8));
+                        ops.push(Op::RemoveBackup(self.rng.below(4) as u8));
                     } else {
+                        if self.p.mode == Mode::Seq && self.rng.chance(1, 6) {
+                            // the rebuild itself runs out of room
+                            ops.push(Op::Fsize(*self.rng.pick(&[0u8, 2, 2])));
+                        }
                         ops.push(Op::Rebuild);
                     }
                 }
